@@ -56,7 +56,7 @@ func c04Run(rc *sim.RunCtx) {
 		src = edgeCorpus[prog-len(corpus)]
 		rc.Probe("size-edge-program")
 	} else {
-		g := newGen(t, genConfig{Modules: true, Hosts: true, Consts: true, HostState: true, MaxStmts: 12})
+		g := newGen(t, genConfig{Modules: true, Hosts: true, Consts: true, HostState: true, Params: true, MaxStmts: 12})
 		src, mods = g.program()
 	}
 	mm := newModuleMap(append(append([]srcModule{}, fixedModules...), mods...))
